@@ -887,20 +887,23 @@ type vfRecv struct {
 	at  time.Duration // virtual time since world start
 	rpc *RPC
 	raw []byte
+	gen int // which of the node's outbound streams carried it (1, 2, ...)
+	idx int // index of the frame on that stream
 }
 
 // vfFake is a scripted remote peer: the harness plays its side of both streams.
 type vfFake struct {
-	w      *vfWorld
-	ident  *vfIdent
-	protos []protocol.ID
-	mu     sync.Mutex
-	out    *vfStream // fake end of the stream the node opened to us (we receive)
-	in     *vfStream // our end of the stream we opened to the node (we send)
-	recv   []vfRecv
-	t0     time.Time
-	nOut   int // number of outbound streams the node opened to us so far
-	bad    int // undecodable frames received
+	w               *vfWorld
+	ident           *vfIdent
+	protos          []protocol.ID
+	mu              sync.Mutex
+	out             *vfStream // fake end of the stream the node opened to us (we receive)
+	in              *vfStream // our end of the stream we opened to the node (we send)
+	recv            []vfRecv
+	t0              time.Time
+	nOut            int // number of outbound streams the node opened to us so far
+	bad             int // undecodable frames received
+	lastGen, genIdx int
 }
 
 func newVfFake(w *vfWorld, name string, protos ...protocol.ID) *vfFake {
@@ -943,6 +946,11 @@ func (f *vfFake) onFrame(b []byte) {
 	if rec.rpc == nil {
 		f.bad++
 	}
+	if f.lastGen != f.nOut {
+		f.lastGen, f.genIdx = f.nOut, 0
+	}
+	rec.gen, rec.idx = f.nOut, f.genIdx
+	f.genIdx++
 	f.recv = append(f.recv, rec)
 	f.mu.Unlock()
 }
